@@ -130,3 +130,25 @@ claim("C08", E2 + " + " + E1,
       "path-forking symbolic execution + SMT validity of the cumulative-interval law; jaxpr -> SMT for the priority formulas",
       "DESIGN.md §3 C08")
 NOT_APPLICABLE.pop("C08", None)
+
+LOOPNOTE = (E2NOTE + " Environment, action-space sampler, function approximators, jitted update routines, PRNG and progress bars are "
+            "recording nondeterministic stubs (each listed in the evidence); observations/actions are unique concrete tags; the "
+            "remaining budget K is bounded (quick <=3, thorough <=5 steps).")
+claim("C01", E2,
+      "The real train_* code objects (DQN, Nature-DQN, DDQN, PER, DDPG, TD3, TD3+LAP, SAC, TD7, MR.Q, PETS) run on a recording "
+      "world in which every step's reward/terminated/truncated is symbolic: for every path (all termination/truncation patterns, "
+      "warm-up lengths, epsilon rolls) each stored transition equals the environment log entry of that step (observation = last "
+      "returned / reset observation, action passed to step, reward, successor, flag) and the acting stub saw the current observation.",
+      LOOPNOTE + " On-policy collectors and tabular loops are not covered by this check yet.",
+      "path-forking symbolic execution of the training-loop code objects against a recording environment (bounded steps)",
+      "DESIGN.md §3 C01, §2 F-LOOP")
+NOT_APPLICABLE.pop("C01", None)
+claim("C11", E2,
+      "The same loop harness checks, on every path: executed steps <= remaining budget, stop once total_episodes episodes finished, "
+      "the environment is never stepped after an episode end without reset (asserted inside the environment stub), no update-stub "
+      "event before the documented warm-up step, and returned counter = start + executed; for DQN family, DDPG, TD3, TD3+LAP, SAC, "
+      "TD7, MR.Q with budgets K in {0..5} and global_step in {0,2}.",
+      LOOPNOTE + " Multi-task schedulers, task selectors, on-policy routines and the rollout helper are not covered by this check yet.",
+      "path-forking symbolic execution of the training-loop code objects (bounded steps), per-path SMT validity of the accounting equations",
+      "DESIGN.md §3 C11, §2 F-LOOP")
+NOT_APPLICABLE.pop("C11", None)
